@@ -2,13 +2,15 @@
 jobmapmodel -- reference model of `molli.pipeline.jobmap` over a history of runs (C18).
 
 Pure stdlib; nothing here imports molli.  The model knows nothing about files or hashes: the *identity*
-of a job input is the pair (job, arg) -- two prepared inputs have the same hash iff they belong to the
-same job (item, or item.conformer) and were prepared with the same arguments.
+of a job input is the triple (job, arg, version) -- two prepared inputs have the same hash iff they belong to
+the same job (item, or item.conformer), were prepared with the same arguments and from the same content of the
+item (the version counts the edits of the item in the source library).
 
 State
     dests : destination-id -> {key: value}       (value = whatever the harness stores; opaque, compared by ==)
     cache : job -> CacheEntry                     (which input produced the cached output, and did that run succeed)
     attempts : job -> number of executions so far (the scripted commands key their behaviour on it)
+    version : key -> number of edits of the item in the source
 
 A run over source S (key -> list of jobs; one job for a single item, one per conformer for a vectorised
 item) with argument `arg` into destination `d`:
@@ -17,21 +19,28 @@ item) with argument `arg` into destination `d`:
     * a job whose cache entry was produced by this very input and succeeded is not executed, its cached
       output is what gets processed;
     * every other job is executed exactly once; what it does is plan[job][attempt];
-    * the destination gains exactly the keys all of whose jobs succeeded (now or from a valid cache);
-      the value records which output (job, arg, attempt) of *this* item was processed;
+    * the destination gains exactly the keys all of whose jobs succeeded (now or from a valid cache) and whose
+      post-processing does not raise; the value records which output (job, arg, version, attempt) of *this* item
+      was processed;
     * keys that are only in the destination, and other destinations, are untouched.
 
-"success" of a run = its command exited 0 and the requested return file exists -- the same definition
-`_molli_run` applies to its own exit status.
+"success" of a run = all its commands exited 0 and every requested return file exists -- the same definition
+`_molli_run` applies to its own exit status.  A job that requests no files succeeds iff its commands exited 0.
+
+strict=False (jobmap(strict_hash=False)): the identity of the input is not compared, everything else as before.
 """
 from __future__ import annotations
 
-MODES = ("ok", "fail_file", "fail_nofile", "omit", "crash")
-#   ok           command exits 0 and writes the return file
-#   fail_file    command writes the return file (partial result), then exits non-zero
-#   fail_nofile  command exits non-zero without a return file
-#   omit         command exits 0 but does not produce the return file
+MODES = ("ok", "fail_file", "fail_nofile", "omit", "crash", "aux_fail", "unparsable")
+#   ok           every command exits 0, the main command writes the return file(s) / prints the result
+#   fail_file    the main command writes the return file (partial result), then exits non-zero
+#                (commands that follow it in the job would exit 0)
+#   fail_nofile  the main command exits non-zero without a return file
+#   omit         every command exits 0 but the return file is not produced
 #   crash        the runner process is killed while the command runs: no output is recorded at all
+#   aux_fail     an auxiliary (non-main) command of a multi-command job exits non-zero; the main command, where
+#                it runs, writes a complete result
+#   unparsable   every command exits 0, every requested file comes back, but the driver's post step raises on it
 
 
 def mode_at(plan, attempt):
@@ -42,22 +51,25 @@ def mode_at(plan, attempt):
 class CacheEntry:
     """what the cache holds for one job"""
 
-    __slots__ = ("input", "exit_ok", "has_file", "readable", "attempt", "origin")
+    __slots__ = ("input", "exit_ok", "has_file", "readable", "attempt", "origin", "parsable", "made_by")
 
-    def __init__(self, input, exit_ok, has_file, attempt, readable=True, origin="run"):
-        self.input = input          # (job, arg) of the input that produced it; None = unknown / foreign
+    def __init__(self, input, exit_ok, has_file, attempt, readable=True, origin="run", parsable=True, made_by=None):
+        self.input = input          # (job, arg, version) of the input that produced it; None = unknown / foreign
         self.exit_ok = exit_ok
         self.has_file = has_file
         self.readable = readable
         self.attempt = attempt
         self.origin = origin
+        self.parsable = parsable    # False: the driver's post step raises on this output
+        self.made_by = made_by if made_by is not None else input   # what the producing command wrote into it
 
     @property
     def success(self):
         return bool(self.readable and self.exit_ok and self.has_file)
 
     def copy(self, **kw):
-        e = CacheEntry(self.input, self.exit_ok, self.has_file, self.attempt, self.readable, self.origin)
+        e = CacheEntry(self.input, self.exit_ok, self.has_file, self.attempt, self.readable, self.origin,
+                       self.parsable, self.made_by)
         for k, v in kw.items():
             setattr(e, k, v)
         return e
@@ -65,29 +77,36 @@ class CacheEntry:
     def describe(self):
         if not self.readable:
             return {"readable": False}
-        return {"input": list(self.input) if self.input else None, "exit_ok": self.exit_ok,
-                "has_file": self.has_file, "attempt": self.attempt, "origin": self.origin}
+        d = {"input": list(self.input) if self.input else None, "exit_ok": self.exit_ok,
+             "has_file": self.has_file, "attempt": self.attempt, "origin": self.origin}
+        if not self.parsable:
+            d["parsable"] = False
+        return d
 
 
-def cache_state(entry, job, arg):
-    """classification of a cache entry with respect to the input (job, arg) -- the reason a job runs or not"""
+def cache_state(entry, input_id, strict=True):
+    """classification of a cache entry with respect to the input -- the reason a job runs or not"""
     if entry is None:
         return "no-cache"
     if not entry.readable:
         return "cache-unreadable"
-    if entry.input != (job, arg):
+    if strict and entry.input != input_id:
+        if entry.input is not None and tuple(entry.input[:2]) == tuple(input_id[:2]):
+            return "cache-other-input-files-only"      # same job, same arguments: only the item's content differs
         return "cache-other-input"
     if not entry.exit_ok:
         return "cache-failed-exit"
     if not entry.has_file:
         return "cache-missing-return-file"
+    if not entry.parsable:
+        return "valid-cache-unparsable"
     return "valid-cache"
 
 
 def computed_value(key, outs, arg):
-    """the value a correct jobmap stores for `key`: the item itself, processed with outs = [(job, arg, attempt)]"""
+    """the value a correct jobmap stores for `key`: the item itself, processed with outs = [(job, arg, ver, attempt)]"""
     return {"obj": key, "post_arg": arg,
-            "outs": [{"job": j, "arg": a, "attempt": n, "status": "ok"} for j, a, n in outs]}
+            "outs": [{"job": j, "arg": a, "ver": v, "attempt": n, "status": "ok"} for j, a, v, n in outs]}
 
 
 class Expect:
@@ -97,13 +116,15 @@ class Expect:
         self.executions = {}    # job -> 0 | 1
         self.why = {}           # job -> in-destination | valid-cache | no-cache | cache-*
         self.mode = {}          # job -> scripted outcome of the expected execution
-        self.item = {}          # key -> kept | gained-now | gained-from-cache | gained-mixed | absent
+        self.item = {}          # key -> kept | gained-now | gained-from-cache | gained-mixed | absent | absent-post-raises
         self.new_entries = {}   # job -> CacheEntry | None (None: cache unchanged)
+        self.input_id = {}      # job -> identity of the input prepared in this run
         self.dest_after = {}    # key -> value
         self.dest_before = {}
         self.dest_only = []     # keys in the destination that are not in the source
         self.d = None
         self.arg = None
+        self.strict = True
 
     def n_exec(self):
         return sum(self.executions.values())
@@ -113,11 +134,14 @@ class Expect:
 
 
 class JobMapModel:
-    def __init__(self, plans):
+    def __init__(self, plans, needs_files=True, aux_after_main=None):
         self.plans = {j: list(p) for j, p in plans.items()}
         self.attempts = {j: 0 for j in plans}
         self.cache = {}
         self.dests = {}
+        self.version = {}
+        self.needs_files = needs_files                  # False: the job requests no return files
+        self.aux_after_main = dict(aux_after_main or {})  # job -> the auxiliary command comes after the main one
 
     # ---- state access -------------------------------------------------------------------
     def dest(self, d):
@@ -126,60 +150,83 @@ class JobMapModel:
     def prepopulate(self, d, key, value):
         self.dest(d)[key] = value
 
-    def clone(self):
-        m = JobMapModel(self.plans)
-        m.attempts = dict(self.attempts)
-        m.cache = {j: e.copy() for j, e in self.cache.items()}
-        m.dests = {d: dict(v) for d, v in self.dests.items()}
-        return m
+    def edit(self, key):
+        """the item is replaced in the source by an object of the same key and name with other content"""
+        self.version[key] = self.version.get(key, 0) + 1
+
+    def outcome(self, job, mode):
+        """(exit_ok, has_file, parsable) recorded for an execution in this mode; None = nothing recorded"""
+        nf = not self.needs_files
+        if mode == "ok":
+            return (True, True, True)
+        if mode == "fail_file":
+            return (False, True, True)
+        if mode == "fail_nofile":
+            return (False, nf, True)
+        if mode == "omit":               # a job without return files that prints nothing: post cannot parse it
+            return (True, True, False) if nf else (True, False, True)
+        if mode == "aux_fail":
+            return (False, bool(nf or self.aux_after_main.get(job)), True)
+        if mode == "unparsable":
+            return (True, True, False)
+        if mode == "crash":
+            return None
+        raise ValueError(mode)
 
     # ---- one run ---------------------------------------------------------------------------
-    def step(self, source, d, arg) -> Expect:
+    def step(self, source, d, arg, strict=True) -> Expect:
         """expectation for jobmap(source -> destination d, arguments arg); does not change the model"""
         x = Expect()
-        x.d, x.arg = d, arg
+        x.d, x.arg, x.strict = d, arg, strict
         before = self.dest(d)
         x.dest_before = dict(before)
         x.dest_after = dict(before)
         x.dest_only = sorted(k for k in before if k not in source)
         for key, jobs in source.items():
+            ver = self.version.get(key, 0)
             if key in before:
                 for j in jobs:
                     x.executions[j] = 0
                     x.why[j] = "in-destination"
                 x.item[key] = "kept"
                 continue
-            outs, ok_all, n_now = [], True, 0
+            outs, ok_all, n_now, post_raises = [], True, 0, False
             for j in jobs:
                 e = self.cache.get(j)
-                st = cache_state(e, j, arg)
+                iid = (j, arg, ver)
+                x.input_id[j] = iid
+                st = cache_state(e, iid, strict)
                 x.why[j] = st
-                if st == "valid-cache":
+                if st in ("valid-cache", "valid-cache-unparsable"):
                     x.executions[j] = 0
-                    outs.append((j, arg, e.attempt))
+                    outs.append(tuple(e.made_by) + (e.attempt,))
+                    if st == "valid-cache-unparsable":
+                        post_raises = True
                     continue
                 x.executions[j] = 1
                 n = self.attempts[j] + 1
                 mode = mode_at(self.plans[j], n)
                 x.mode[j] = mode
-                if mode == "ok":
-                    x.new_entries[j] = CacheEntry((j, arg), True, True, n)
-                    outs.append((j, arg, n))
+                oc = self.outcome(j, mode)
+                if oc is None:          # crash: nothing recorded, whatever was cached stays
+                    x.new_entries[j] = None
+                    ok_all = False
+                    continue
+                exit_ok, has_file, parsable = oc
+                x.new_entries[j] = CacheEntry(iid, exit_ok, has_file, n, parsable=parsable)
+                if exit_ok and has_file:
+                    outs.append(iid + (n,))
                     n_now += 1
+                    if not parsable:
+                        post_raises = True
                 else:
                     ok_all = False
-                    if mode == "fail_file":
-                        x.new_entries[j] = CacheEntry((j, arg), False, True, n)
-                    elif mode == "fail_nofile":
-                        x.new_entries[j] = CacheEntry((j, arg), False, False, n)
-                    elif mode == "omit":
-                        x.new_entries[j] = CacheEntry((j, arg), True, False, n)
-                    else:  # crash: nothing recorded, whatever was cached stays
-                        x.new_entries[j] = None
-            if ok_all:
+            if ok_all and not post_raises:
                 x.dest_after[key] = computed_value(key, outs, arg)
                 x.item[key] = ("gained-now" if n_now == len(jobs) else
                                "gained-from-cache" if n_now == 0 else "gained-mixed")
+            elif ok_all:
+                x.item[key] = "absent-post-raises"
             else:
                 x.item[key] = "absent"
         return x
@@ -209,39 +256,33 @@ class JobMapModel:
         self.cache[dst_job] = e.copy(origin=f"copy-of-{src_job}")
         return True
 
-    def t_flip_exit(self, job):
+    def _t_field(self, job, origin, **kw):
         e = self.cache.get(job)
         if e is None or not e.readable:
             return False
-        self.cache[job] = e.copy(exit_ok=False, origin="exitcode-flipped")
+        self.cache[job] = e.copy(origin=origin, **kw)
         return True
+
+    def t_flip_exit(self, job):
+        return self._t_field(job, "exitcode-flipped", exit_ok=False)
 
     def t_rehash(self, job):
+        return self._t_field(job, "hash-replaced", input=None)
+
+    def t_nohash(self, job):
+        """the stored output carries no input hash at all"""
+        return self._t_field(job, "hash-removed", input=None)
+
+    def t_noexit(self, job):
+        """the stored output carries no exit code"""
+        return self._t_field(job, "exitcode-removed", exit_ok=False)
+
+    def t_nofiles(self, job):
+        """the stored output carries no files; that only matters to a job that requests files"""
         e = self.cache.get(job)
         if e is None or not e.readable:
             return False
-        self.cache[job] = e.copy(input=None, origin="hash-replaced")
-        return True
-
-
-def simulate(plans, prepop, runs, sources):
-    """run a whole history through the model alone -> list of Expect (used to cost / classify a history up front).
-
-    prepop: {d: {key: value}};  runs: [{"arg","dest","tamper":[(op, job[, job2])], "source": index}];
-    sources: list of {key: [jobs]}.
-    """
-    m = JobMapModel(plans)
-    for d, kv in prepop.items():
-        for k, v in kv.items():
-            m.prepopulate(d, k, v)
-    out = []
-    for r in runs:
-        for t in r.get("tamper", ()):
-            apply_tamper(m, t)
-        x = m.step(sources[r["source"]], r["dest"], r["arg"])
-        m.commit(x)
-        out.append(x)
-    return out
+        return self._t_field(job, "files-removed", has_file=e.has_file and not self.needs_files)
 
 
 def apply_tamper(m: JobMapModel, t):
@@ -254,8 +295,6 @@ def apply_tamper(m: JobMapModel, t):
         return True
     if op == "copy":
         return m.t_copy(t[1], t[2])
-    if op == "flip_exit":
-        return m.t_flip_exit(t[1])
-    if op == "rehash":
-        return m.t_rehash(t[1])
+    if op in ("flip_exit", "rehash", "nohash", "noexit", "nofiles"):
+        return getattr(m, "t_" + op)(t[1])
     raise ValueError(op)
